@@ -14,11 +14,30 @@ import time
 VERIF = os.path.dirname(os.path.dirname(os.path.abspath(__file__)))
 REPO = os.environ.get("KOTO_REPO", "/repo")
 BUILD = os.path.join(VERIF, "build")
-COQ = os.path.join(VERIF, "coq")
+COQ_SRC = os.path.join(VERIF, "coq")
 HARNESS = os.path.join(VERIF, "harness")
 EVIDENCE = os.path.join(VERIF, "evidence")
 REPLAYS = os.path.join(VERIF, "replays")
 NPROC = min(16, os.cpu_count() or 4)
+
+
+
+def _coq_root():
+    """Checks against /repo build the Coq units in place (/verif/coq).  Checks
+    against another checkout (KOTO_REPO=..., used for mutation testing) work on
+    a private mirror so that regenerated Gen*.v tables never disturb /verif/coq."""
+    if os.path.realpath(REPO) == "/repo":
+        return COQ_SRC
+    tag = hashlib.sha1(os.path.realpath(REPO).encode()).hexdigest()[:8]
+    dst = os.path.join(BUILD, "coq-" + tag)
+    os.makedirs(dst, exist_ok=True)
+    subprocess.run(["rsync", "-a", "--exclude", "Gen*.v", "--exclude", "cases_*", "--exclude", "*.vo", "--exclude", "*.vos",
+                    "--exclude", "*.vok", "--exclude", "*.glob", "--exclude", ".*.aux", "--exclude", "Makefile*",
+                    "--exclude", ".Makefile*", "--exclude", "_CoqProject", COQ_SRC + "/", dst + "/"], check=True)
+    return dst
+
+
+COQ = _coq_root()
 
 ENV = dict(os.environ)
 ENV.update({"CARGO_NET_OFFLINE": "true", "CARGO_TERM_COLOR": "never"})
@@ -71,22 +90,39 @@ class Lock:
 # Rust harness
 
 
+def repo_tag():
+    return "repo" if os.path.realpath(REPO) == "/repo" else hashlib.sha1(os.path.realpath(REPO).encode()).hexdigest()[:8]
+
+
 def harness_prepare():
-    """Cargo.lock must come from /repo so that the offline build resolves the
-    same (cached) crate versions."""
-    lock_src = os.path.join(REPO, "Cargo.lock")
-    lock_dst = os.path.join(HARNESS, "Cargo.lock")
+    """The harness crate is instantiated per koto checkout (KOTO_REPO, default
+    /repo): build/harness-<tag>/ holds a Cargo.toml generated from
+    harness/Cargo.toml.in with path dependencies into that checkout, the
+    checkout's Cargo.lock (so the offline build resolves the same cached crate
+    versions) and a symlink to harness/src."""
+    d = os.path.join(BUILD, "harness-" + repo_tag())
+    os.makedirs(d, exist_ok=True)
+    toml = open(os.path.join(HARNESS, "Cargo.toml.in")).read().replace("@REPO@", os.path.realpath(REPO))
+    p = os.path.join(d, "Cargo.toml")
+    if not os.path.exists(p) or open(p).read() != toml:
+        open(p, "w").write(toml)
+    lock_dst = os.path.join(d, "Cargo.lock")
     if not os.path.exists(lock_dst):
-        shutil.copy(lock_src, lock_dst)
+        shutil.copy(os.path.join(REPO, "Cargo.lock"), lock_dst)
+    link = os.path.join(d, "src")
+    if not os.path.islink(link):
+        os.symlink(os.path.join(HARNESS, "src"), link)
+    return d
 
 
 def build_harness(bin_name, features=None, release=False, target_suffix=""):
-    """cargo build one harness binary against /repo's CURRENT working tree
-    (path dependencies) with the verification hooks enabled.
+    """cargo build one harness binary against the CURRENT working tree of the
+    koto checkout (path dependencies) with the verification hooks enabled.
     returns (path or None, log)"""
-    with Lock("cargo" + target_suffix):
-        harness_prepare()
-        target = os.path.join(BUILD, "cargo" + target_suffix)
+    tag = repo_tag() + target_suffix
+    with Lock("cargo-" + tag):
+        crate = harness_prepare()
+        target = os.path.join(BUILD, "cargo-" + tag)
         cmd = ["cargo", "build", "--offline", "--bin", bin_name, "--target-dir", target]
         if release:
             cmd.append("--release")
@@ -94,7 +130,7 @@ def build_harness(bin_name, features=None, release=False, target_suffix=""):
             cmd += ["--no-default-features", "--features", ",".join(features)]
         env = dict(ENV)
         env["RUSTFLAGS"] = (env.get("RUSTFLAGS", "") + " --cfg koto_verif").strip()
-        rc, out = sh(cmd, cwd=HARNESS, env=env, timeout=1800)
+        rc, out = sh(cmd, cwd=crate, env=env, timeout=1800)
         if rc != 0:
             return None, out
         return os.path.join(target, "release" if release else "debug", bin_name), out
